@@ -238,3 +238,112 @@ Definition ctx_trigger (c : ctx) : bool :=
 
 Definition T (v : version) (cs : list ctx) : bool :=
   match v with V1 => existsb ctx_trigger cs | _ => false end.
+
+(* ====================================================================================
+   The same contract for the files the operator produces by itself (flow cases): a hook
+   with one kubernetes binding, the objects of the cluster, the watch events.
+
+   The predicate is about the INPUT (the binding's options as documented, the objects
+   with the jq oracle's answers, the order of the watch events) and the OBSERVED files.
+   Which events lead to a file is C08's subject and which objects a snapshot lists is
+   C02's: neither is demanded here.  Every file is judged as what it is: the file
+   observed after the k-th watch event must be the documented `Event` context for that
+   very event and object, the file observed before any event the documented
+   `Synchronization` context; every element of `objects` and of the `snapshots` arrays
+   must be the documented rendering of the object it stands for (the driver records the
+   ResourceId behind every element) as that object is at that moment — with `object`
+   exactly when the binding keeps full objects and `filterResult` exactly when it has a
+   jqFilter.
+   ==================================================================================== *)
+
+(* the documented element for object [w] of binding [b] *)
+Definition spec_item (b : binding) (w : wobj) : item :=
+  Stored (if b_jq b then Some (w_outs w) else None) (b_keep b) (w_obj w).
+
+(* the objects of the cluster, by ResourceId *)
+Definition alive_step (a : list (bytes * wobj)) (op : wevent * wobj) : list (bytes * wobj) :=
+  match fst op with
+  | WAdded | WModified => aset (w_id (snd op)) (snd op) a
+  | WDeleted => adel (w_id (snd op)) a
+  | WNone => a
+  end.
+Definition alive_init (ws : list wobj) : list (bytes * wobj) :=
+  fold_left (fun a w => aset (w_id w) w a) ws [].
+Definition alive_at (f : flow) (k : nat) : list (bytes * wobj) :=
+  fold_left alive_step (firstn k (f_ops f)) (alive_init (f_initial f)).
+
+Fixpoint resolve (a : list (bytes * wobj)) (ids : list bytes) : option (list wobj) :=
+  match ids with
+  | [] => Some []
+  | i :: r => match aget i a, resolve a r with
+              | Some w, Some ws => Some (w :: ws)
+              | _, _ => None
+              end
+  end.
+
+Fixpoint resolve_snaps (a : list (bytes * wobj)) (l : list (bytes * list bytes)) : option (list (bytes * list wobj)) :=
+  match l with
+  | [] => Some []
+  | (n, ids) :: r => match resolve a ids, resolve_snaps a r with
+                     | Some ws, Some rs => Some ((n, ws) :: rs)
+                     | _, _ => None
+                     end
+  end.
+
+(* the context the documentation describes for binding [b] *)
+Definition expected_ctx (b : binding) (kt : ktype) (wev : wevent) (objs : list wobj)
+           (snaps : list (bytes * list wobj)) : ctx :=
+  mkCtx BKube (b_jq b) (b_incl b) false (b_group b) (b_name b) kt wev
+        (map (spec_item b) objs)
+        (map (fun p => (fst p, map (spec_item b) (snd p))) snaps)
+        None None [] [].
+
+(* the context is one of the documented ones for its config version (and, for v0, one of a v0 hook) *)
+Definition wfv (v : version) (c : ctx) : bool :=
+  match v with V1 => wf1 c | V0 => wf0 c | VOther => true end.
+
+Definition P_file (f : flow) (fo : fobs) : bool :=
+  let b := f_bind f in
+  let k := N.to_nat (fo_step fo) in
+  let a := alive_at f k in
+  (* one array per included binding name *)
+  list_eqb bytes_eqb (map fst (fo_snaps fo)) (canon_names (b_incl b))
+  && match resolve_snaps a (fo_snaps fo) with
+     | None => false
+     | Some snaps =>
+         match k with
+         | O =>
+             match resolve a (fo_ids fo) with
+             | Some objs =>
+                 let c := expected_ctx b KSync WNone objs snaps in
+                 wfv (f_version f) c && P (f_version f) [c] (fo_out fo)
+             | None => false
+             end
+         | S k' =>
+             match nth_error (f_ops f) k' with
+             | Some (t, w) =>
+                 list_eqb bytes_eqb (fo_ids fo) [w_id w]
+                 && (let c := expected_ctx b KEvent t [w] snaps in
+                     wfv (f_version f) c && P (f_version f) [c] (fo_out fo))
+             | None => false
+             end
+         end
+     end.
+
+(* a crash (no observation) never conforms *)
+Definition P_flow (f : flow) (obs : option (list fobs)) : bool :=
+  match obs with
+  | Some files => forallb (P_file f) files
+  | None => false
+  end.
+
+(* trigger of F8 on a flow: a jqFilter is set and the jq result of some object is not a
+   single JSON object (v1 only: the v0 shape has no filterResult) *)
+Definition wobj_trigger (b : binding) (w : wobj) : bool := item_trigger (spec_item b w).
+
+Definition T_flow (f : flow) : bool :=
+  match f_version f with
+  | V1 => existsb (wobj_trigger (f_bind f)) (f_initial f)
+          || existsb (fun op => wobj_trigger (f_bind f) (snd op)) (f_ops f)
+  | _ => false
+  end.
